@@ -154,6 +154,11 @@ class PP:
                     nv = "v.and_then(|v| %s)" % self.mkv(b, s, "v ^ " + p(b, s))
                 cb = "move |v: %s| { ev(%d); ev(%d); %s }" % (self.ty, E(b, s, 0), E(b, s, 1), nv)
                 op, tail = "~|>", ""
+            elif self.styles.get((b, s)) == "athen":
+                # `->` in an async macro hands the FUTURE of the previous step's value to the function; it returns a future with a pending point
+                assert self.carrier == "raw" and not self.is_try
+                cb = "move |f| athen(%d, %d, %s, f, %s)" % (E(b, s, 0), E(b, s, 1), g(s), p(b, s))
+                op, tail = "~->", ""
             elif self.is_try:
                 assert self.carrier == "res"
                 cb = "move |v: u8| astep(%d, %d, %s, %s)" % (E(b, s, 0), E(b, s, 1), g(s), self.mkv(b, s, "v ^ " + p(b, s)))
